@@ -950,6 +950,8 @@ def check_list_spacing_confinement(ctx: Ctx) -> None:
         for ex in flow.node_exprs(n):
             sl = prog.slice(lm, ex, n, control=True)
             if f"self.{attr}" in sl.attrs() and n.kind == "stmt":
+                if isinstance(n.ast, ast.Expr) and not any(isinstance(x, (ast.Call, ast.Await, ast.Yield, ast.YieldFrom)) for x in ast.walk(n.ast)):
+                    continue  # the subject of a `match`: evaluated, nothing stored
                 dependents.append(n)
     self_stores = []
     for n in dependents:
